@@ -24,18 +24,20 @@ per activation style (`Mock.EnterFail.run`).
 
 After the second audit (AUDIT2-lib.md, N2): replacements can be SENSITIVE TO ASYNCIO MODE (behaviour `sync` = a fake that
 makes an ordinary synchronous call of another @asynq() function; `Behav.syncCall`; family `modes` and ~8% of the patchers
-of random histories).  The model has `conv` as the code is: the `.asyncio` of an `asynq(sync_fn=new)(new)` pair reached
-through a class / an instance runs `new` inside asyncio mode, the other three conventions do not - an OPEN FINDING
-(signature `fail:asyncio-mode-reaches-replacement/through-class@call`; theorems `C19_conventions_disagree_counterexample`,
-`C19_asyncio_mode_counterexample`; `C19_spec_holds_current_partial` carries the hypothesis that excludes it).  The observer
+of random histories).  Before /repo fix 45a545c the `.asyncio` of an `asynq(sync_fn=new)(new)` pair reached through a class /
+an instance ran `new` inside asyncio mode, the other three conventions did not (finding
+`fail:asyncio-mode-reaches-replacement/through-class@call`, FIXED).  The model has `conv` as the repaired code is: no spec is
+mode-exposed any more, the hypothesis `hm` of the `_partial` theorems is discharged for every history (`C19_spec_holds`,
+`C19_conventions_agree`), and `C19_asyncio_mode_repaired` shows the history of the former finding accepted.  The observer
 now also demands of EVERY observation, tainted history or not, a well-formed result (four outcomes per call, one store entry
 per target) and that construct / call / peek / rebind change no host (`shape@`, `frame@`).
 
 Round 5 (interactions): keyword arguments are passed under realistic NAMES (`fn=`, `args=`, `mock_fn=`, `cls=` ...;
 KW_NAMES: a key of the model >= KWN_BASE is realised as that identifier) - family `kwnames` (every name x replacement kind)
 and a quarter of the random histories; callables (a callback, an @asynq() function, a mock) among the argument objects;
-family `enterfail` got the CLASS of the exception the product's `__setattr__` raises (`EnterFail.ExcClass`, theorems
-`C19_enter_failure_restores_any_exception`, `C19_enter_failure_catch_all_necessary`), the assignment that fails (`asynq`
+family `enterfail` got the CLASS of the exception the product's `__setattr__` raises (`EnterFail.ExcClass`; the class is
+inert in the model, so `C19_enter_failure_restores_any_exception` / `C19_enter_failure_catch_all_necessary` hold by
+construction - the claim "every class is caught" rests on this harness family run on the real code), the assignment that fails (`asynq`
 / `async` / `asyncio`), a DEFAULT mock made attribute-rejecting by `spec_set=`, the activation inside an open patch of
 the same target and a second use of the failing patcher."""
 import hashlib
@@ -71,8 +73,6 @@ HEADLINE_THEOREMS = [
     "AsynqModel.Mock.C19_new_callable_asynq16_counterexample",
     "AsynqModel.Mock.EnterFail.C19_enter_failure_restores",
     "AsynqModel.Mock.EnterFail.C19_enter_failure_needs_undo",
-    "AsynqModel.Mock.EnterFail.C19_enter_failure_restores_any_exception",
-    "AsynqModel.Mock.EnterFail.C19_enter_failure_catch_all_necessary",
 ]
 # ... and statements that HOLD BY CONSTRUCTION OF THE MODEL (one unfolding of `step` / `enter` / `resolveP` from an
 # arbitrary state, or a corollary of C19_conventions_agree_partial; the model has no way to say anything else: objects are
@@ -94,6 +94,12 @@ BY_CONSTRUCTION_THEOREMS = [
     "AsynqModel.Mock.C19_calls_through_name_reach_replacement",
     "AsynqModel.Mock.EnterFail.C19_enter_undo_only_matters_on_failure",
     "AsynqModel.Mock.EnterFail.C19_enter_failure_style_irrelevant",
+    # third audit, section C: the exception class `exc` is inert in the model (`runWith catchAll p e s = runCurrent p s` by
+    # rfl; `runWith catches .rejecting e s` depends on `catches e` only): both are C19_enter_failure_restores /
+    # C19_enter_failure_needs_undo re-stated.  The real content - the except clause of mock_.py catches every class the
+    # product's __setattr__ raises - is the harness family `enterfail` (7 exception classes on the real _PatchAsync)
+    "AsynqModel.Mock.EnterFail.C19_enter_failure_restores_any_exception",
+    "AsynqModel.Mock.EnterFail.C19_enter_failure_catch_all_necessary",
 ]
 HEADLINE = HEADLINE_THEOREMS
 BY_CONSTRUCTION = BY_CONSTRUCTION_THEOREMS
@@ -150,12 +156,13 @@ TRUSTED = [
     "stopall), CPython descriptor protocol / `with` semantics, asynq.decorators for `asynq(sync_fn=new)(new)`",
 ]
 ASSUMPTIONS = [
-    "OPEN FINDING, inside the statement (not an assumption of the check, a hypothesis of the theorems): a replacement "
+    "FORMER FINDING (fixed by /repo 45a545c), inside the statement: a replacement "
     "whose behaviour depends on asyncio mode - modelled and generated: a fake that makes an ordinary synchronous call of "
     "another @asynq() function - given as a plain function / classmethod / staticmethod object and reached through a "
-    "class or an instance gets RuntimeError from .asyncio() alone (PSpec.modeExposed; hypothesis `hm` of "
-    "C19_conventions_agree_partial / C19_spec_holds_partial / C19_spec_holds_current_partial, necessity: "
-    "C19_conventions_disagree_counterexample / C19_asyncio_mode_counterexample).  Other ways of being mode-sensitive "
+    "class or an instance got RuntimeError from .asyncio() alone.  On the repaired tree no spec is mode-exposed: the hypothesis "
+    "`hm` of C19_conventions_agree_partial / C19_spec_holds_partial / C19_spec_holds_current_partial is discharged for every "
+    "history by C19_conventions_agree / C19_spec_holds; C19_asyncio_mode_repaired replays the former counterexample; a "
+    "regression is a CORR difference plus the observer's clause asyncio-mode-reaches-replacement.  Other ways of being mode-sensitive "
     "(reading is_asyncio_mode() directly, awaiting) are the same code path and are not generated separately",
     "a replacement that IS some target's original (`patch('m.f', m.f)`, or `new` = another target's original) is not "
     "generated and not modelled (model objects are immutable values): the code restores the host by identity, but "
